@@ -141,6 +141,9 @@ def revolve(
     single = np.tile(quad, per).reshape((-1, 3))
     # `per` is basically the stride of the vertices
     single += np.tile(np.arange(per), (2, 1)).T.reshape((-1, 1))
+    # the last quad joins the last point of the profile back to the first point
+    # of the same slices, not to the first point of the slices after them
+    single[-2:] = [[per - 1, 2 * per - 1, 0], [0, 2 * per - 1, per]]
     # remove any zero-area triangle
     # this covers many cases without having to think too much
     # the last quad refers to the slice after next: wrap it as the final faces are
